@@ -52,6 +52,9 @@ type Work struct {
 	Helper    bool   `json:"helper,omitempty"`     // goroutines are started from inside helper functions that return at once (closures keep the helper's parameters)
 	DeferEnd  bool   `json:"defer_end,omitempty"`  // stages signal their end (close / done) from a deferred call
 	HostDrain int    `json:"host_drain,omitempty"` // 1: the script only starts the pipeline and returns its last channel, the host drains it after the run returned; 2: a second run on the same environment is the consumer
+	Prelude   bool   `json:"prelude,omitempty"`    // channels and producer functions are set up by an earlier run on the same environment whose context is cancelled once it has returned
+	TakeFirst int    `json:"take_first,omitempty"` // >0: the consumer first takes this many items with a for-in it leaves by break, then goes on with its usual loop
+	Rebind    bool   `json:"rebind,omitempty"`     // the names of started functions are rebound right after the go statement (the callee is evaluated by the caller, at the go statement)
 	Shadow    bool   `json:"shadow,omitempty"`     // outer variables named like the for-in loop variables exist (a for-in variable is a fresh binding per loop)
 }
 
@@ -120,6 +123,11 @@ func (Prop) Gen(seed int64, tier string) *harness.Case {
 			w.ConsForm = r.Intn(3)
 		}
 	}
+	w.Prelude = r.Intn(5) == 0
+	w.Rebind = r.Intn(3) == 0
+	if r.Intn(4) == 0 {
+		w.TakeFirst = 1 + r.Intn(1+maxN)
+	}
 	if tier == "real" {
 		// the real-thread leg wants contention: many items, pools of receivers, no sleeps
 		for i := range w.Items {
@@ -175,7 +183,7 @@ func (Prop) Gen(seed int64, tier string) *harness.Case {
 		Choices: cs, Source: Render(&w)}
 }
 
-const nSpawn = 10
+const nSpawn = 11
 
 // expectedFromSent: per producer, the values the final consumer must see, derived from the recorded item() calls.
 func expectedFromSent(w *Work, probes map[string]interface{}) [][]interface{} {
@@ -363,6 +371,10 @@ func Render(w *Work) string {
 	b.WriteString("func prod6(id, a2, a3, a4, a5, n) {\nargs(id, a2, a3, a4, a5, n)\n" + body + "}\n")
 	b.WriteString("func prodv(id, rest...) {\nn = rest[0]\nargs(id, rest[0], rest[1])\n" + body + "}\n")
 	b.WriteString("func prodw(all...) {\nid = all[0]\nn = all[1]\nargs(id, n, all[2])\n" + body + "}\n")
+	b.WriteString("func badprod(id, n) {\nargs(id, -1)\ndn <- id\n}\n")
+	if w.Prelude {
+		b.WriteString(PreludeMark)
+	}
 	fmt.Fprintf(&b, "ns = [")
 	for i, n := range w.Items {
 		if i > 0 {
@@ -392,6 +404,9 @@ func Render(w *Work) string {
 			b.WriteString("go prod4(pid, nil, 13, ns[pid - 1])\n")
 		case 9:
 			b.WriteString("go prod3(pid, nil, ns[pid - 1])\n")
+		case 10:
+			// the callee is a variable that is rebound as soon as the goroutine is started
+			b.WriteString("st = prod\ngo st(pid, ns[pid - 1])\nst = badprod\n")
 		default:
 			b.WriteString("xs = [pid, ns[pid - 1], 9]\ngo prodw(xs...)\n")
 			if w.MutateArg {
@@ -425,6 +440,9 @@ func Render(w *Work) string {
 			fmt.Fprintf(&b, "func fwd%d(pin, b, pout) {\n%s\n%sclose(pout)\n}\ngo fwd%d(%s, 2, %s)\n", s, ploop, tail, s, in, out)
 		default:
 			fmt.Fprintf(&b, "func fwd%d(pin, rest...) {\npout = rest[0]\n%s\n%sclose(pout)\n}\ngo fwd%d(%s, %s)\n", s, ploop, tail, s, in, out)
+		}
+		if w.Rebind && w.FwdSpawn%4 != 0 {
+			fmt.Fprintf(&b, "fwd%d = nil\n", s)
 		}
 	}
 	last := fmt.Sprintf("ch%d", stages-1)
@@ -464,6 +482,14 @@ func Render(w *Work) string {
 		b.WriteString(last + "\n" + SplitMark)
 	}
 	b.WriteString("out = []\n")
+	if w.TakeFirst > 0 && !w.switchConsumer() {
+		// leaving a for-in early must leave every other item in the channel
+		keep := "\nout += vt"
+		if w.Nils {
+			keep = ""
+		}
+		fmt.Fprintf(&b, "tk = 0\nfor vt in %s {\nemit(vt)%s\ntk++\nif tk >= %d { break }\n}\n", last, keep, w.TakeFirst)
+	}
 	if w.switchConsumer() {
 		// the consumer dispatches on the received value: the tag `<-ch` must be evaluated once per message
 		var c1, c2 []string
@@ -514,16 +540,29 @@ func Render(w *Work) string {
 // SplitMark separates the two runs of a HostDrain=2 program (both on one environment).
 const SplitMark = "# ---- second run, same environment ----\n"
 
-// runParts executes the program: one run, or two consecutive runs on the same environment.
-func runParts(w *Work, src string, run func(part string) (interface{}, error)) (interface{}, error) {
+// PreludeMark ends the part a Prelude program runs first, under a context of its own that is cancelled afterwards.
+const PreludeMark = "# ---- end of the set-up run (its context is cancelled once it has returned) ----\n"
+
+// runParts executes the program: one run, or several consecutive runs on the same environment.
+// run is told whether the part is the set-up run.
+func runParts(w *Work, src string, run func(part string, setup bool) (interface{}, error)) (interface{}, error) {
+	if w.Prelude {
+		parts := strings.SplitN(src, PreludeMark, 2)
+		if len(parts) == 2 {
+			if _, err := run(parts[0], true); err != nil {
+				return nil, err
+			}
+			src = parts[1]
+		}
+	}
 	if w.HostDrain != 2 {
-		return run(src)
+		return run(src, false)
 	}
 	parts := strings.SplitN(src, SplitMark, 2)
-	if _, err := run(parts[0]); err != nil {
+	if _, err := run(parts[0], false); err != nil {
 		return nil, err
 	}
-	return run(parts[1])
+	return run(parts[1], false)
 }
 
 // hostDrain receives from the channel a HostDrain=1 program returned until it is closed.
@@ -698,10 +737,16 @@ func (Prop) Run(t *testing.T, c *harness.Case, verbose bool) *harness.Result {
 			}
 		})
 		sim.Spawn("main", func() {
-			mainVal, mainErr = runParts(&w, src, func(part string) (interface{}, error) {
+			mainVal, mainErr = runParts(&w, src, func(part string, setup bool) (interface{}, error) {
 				st, perr := parser.ParseSrc(part)
 				if perr != nil {
 					return nil, perr
+				}
+				if setup {
+					sctx := sim.NewCtx()
+					v, err := vm.RunContext(sctx, e, &vm.Options{Debug: false}, st)
+					sctx.Cancel()
+					return v, err
 				}
 				if w.CtxMode == 1 {
 					return vm.RunContext(context.Background(), e, &vm.Options{Debug: false}, st)
@@ -943,10 +988,16 @@ func RunReal(c *harness.Case) (string, string) {
 	})
 	ctx, cancel := context.WithTimeout(context.Background(), 45*time.Second)
 	defer cancel()
-	val, rerr := runParts(&w, src, func(part string) (interface{}, error) {
+	val, rerr := runParts(&w, src, func(part string, setup bool) (interface{}, error) {
 		st, perr := parser.ParseSrc(part)
 		if perr != nil {
 			return nil, perr
+		}
+		if setup {
+			sctx, scancel := context.WithCancel(context.Background())
+			v, err := vm.RunContext(sctx, e, &vm.Options{Debug: false}, st)
+			scancel()
+			return v, err
 		}
 		return vm.RunContext(ctx, e, &vm.Options{Debug: false}, st)
 	})
